@@ -48,7 +48,8 @@ PROBES = {"thin_pack_completed": 1, "objects_transferred": 1,
           "failed_transfer": 1, "retry_after_fault_ok": 1, "shallow_fetch": 1,
           "second_fetch_after_growth": 1, "fetch_into_shallow_repo": 1,
           "hostile_want_refused": 1, "http_server_exception": 1,
-          "failed_after_refs_changed": 1}
+          "failed_after_refs_changed": 1,
+          "disk_fault_during_second_fetch": 1}
 MIN_BUDGET = 120
 
 
@@ -135,6 +136,12 @@ def gen_plan(seed, tier):
                           # 2**31-1 is how a client asks to unshallow
                           "depth": rng.choice([None, None, None, 1, 3,
                                                2147483647, 2147483647])}
+    if plan["second"] and not plan["receiver_mem"] and rng.random() < 0.35:
+        # the receiver's disk fails while it stores what the second fetch
+        # brought (the nth mutating call from the start of that fetch)
+        plan["second"]["disk_fault"] = {
+            "nth": rng.randrange(0, 30),
+            "kind": rng.choice(["ENOSPC", "EIO"])}
     if (plan["depth"] or plan["second"]) and "shallow" in plan["server_drop"]:
         # a depth request against a server without 'shallow' is refused by
         # the client up front; nothing to observe
@@ -526,9 +533,16 @@ def run_plan(plan):
                     conn.a.close()
             if second and outcome.get("ok"):
                 outcome.pop("ok")
+                outcome["first_tips"] = list(
+                    outcome.get("wants_all") or []) + list(
+                    (outcome.get("cloned_refs") or {}).values())
+                nf0 = len(sim.fired)
                 try:
                     grow_sender()
                     cur["conn"] = conn3
+                    df = second.get("disk_fault")
+                    if df:
+                        sim.faults[(a.name, a.mcount + df["nth"])] = df["kind"]
                     do_transfer(mk_client(), op="fetch",
                                 depth=second["depth"])
                     outcome["ok"] = True
@@ -538,6 +552,10 @@ def run_plan(plan):
                         EOFError) as e:
                     outcome["error"] = e
                     outcome["second_failed"] = True
+                if len(sim.fired) > nf0:
+                    sim.stat("fault:disk-" + sim.fired[nf0][2] + "@" +
+                             sim.fired[nf0][3])
+                    outcome["second_disk_fault"] = sim.fired[nf0]
             if conn3 is not None:
                 conn3.a.close()
             if http2 is not None and "error" in outcome and op != "clone":
@@ -772,6 +790,31 @@ def run_plan(plan):
                 sim.stat("probe:failed_during_maintenance")
                 sim.stat("failed_during_maintenance:" +
                          type(err).__name__)
+            elif outcome.get("second_disk_fault") and \
+                    not sim.abort_reason:
+                # the receiver's disk failed during a later fetch: the fetch
+                # may fail, the repository that was complete before stays
+                # complete (modulo what its shallow file says *now*)
+                sim.stat("probe:disk_fault_during_second_fetch")
+                rr = Repo(recv_path)
+                try:
+                    sh = set(rr.get_shallow())
+                    tips2 = list(outcome.get("first_tips") or []) + [
+                        v for kk, v in rr.refs.as_dict().items()]
+                    probs, _ = check_closure(u, rr.object_store, tips2, sh)
+                    if probs:
+                        viols.append({
+                            "sig": "C05/receiver-incomplete-after-failed-"
+                            f"fetch/{plan['transport']}/" + (
+                                "unshallow" if second["depth"] == 2147483647
+                                else "deepen" if second["depth"] else
+                                "plain"),
+                            "detail": f"fault {outcome['second_disk_fault']} "
+                            f"error {err!r:.100}; {probs[:3]} shallow now "
+                            f"{sorted(sh)[:3]} before "
+                            f"{sorted(outcome.get('shallow') or [])[:3]}"})
+                finally:
+                    rr.close()
             elif not netfired and not sim.abort_reason:
                 viols.append({
                     "sig": f"C05/failed-without-fault/{op}/"
